@@ -695,6 +695,38 @@ func genC19(c *Ctx) {
 		nj, err := json.Marshal(b.Namespace())
 		var nback share.Namespace
 		c.check(err == nil && json.Unmarshal(nj, &nback) == nil && bytes.Equal(nback.Bytes(), g.ns), "Namespace JSON", "round trip differs", wit)
+		// the SAME values in JSON texts another encoder may write: `/` as `\/`, `+` as `\u002b`, and the first
+		// character as a \u escape (valid JSON strings for the same base64 text), for a share and a namespace whose
+		// base64 text contains `/` and `+` (0xfb 0xff bytes)
+		{
+			esc := func(j []byte) []byte {
+				t := strings.ReplaceAll(strings.ReplaceAll(string(j), "/", `\/`), "+", `\u002b`)
+				if len(t) > 2 && t[0] == '"' && t[1] != '\\' {
+					t = `"` + fmt.Sprintf(`\u%04x`, t[1]) + t[2:]
+				}
+				return []byte(t)
+			}
+			raw := shs[0].ToBytes()
+			for k := 40; k < 100 && k < len(raw); k++ {
+				raw[k] = []byte{0xfb, 0xff, 0xfe}[k%3]
+			}
+			if sh2, err := share.NewShare(raw); err == nil {
+				j2, err := json.Marshal(*sh2)
+				var back share.Share
+				c.check(err == nil && json.Unmarshal(esc(j2), &back) == nil && bytes.Equal(back.ToBytes(), raw), "Share JSON", "a valid JSON text of the same share written with escapes is refused or decodes differently", wit)
+			}
+			nsRaw := append([]byte{}, g.ns...)
+			nsRaw[27], nsRaw[28] = 0xfb, 0xff
+			if ns2, err := share.NewNamespaceFromBytes(nsRaw); err == nil {
+				j2, err := json.Marshal(ns2)
+				var back share.Namespace
+				c.check(err == nil && json.Unmarshal(esc(j2), &back) == nil && bytes.Equal(back.Bytes(), nsRaw), "Namespace JSON", "a valid JSON text of the same namespace written with escapes is refused or decodes differently", wit)
+			}
+			bj, err := json.Marshal(b)
+			var bback share.Blob
+			c.check(err == nil && json.Unmarshal(esc(bj), &bback) == nil && bytes.Equal(bback.Data(), b.Data()), "Blob JSON", "a valid JSON text of the same blob written with escapes is refused or decodes differently", wit)
+			c.count("json_text_with_escapes")
+		}
 	}
 	// acceptance product
 	type idCase struct {
